@@ -295,6 +295,50 @@ def clustering_case(ctx, report, sm, scratch):
         ctx.violation("clustering report: " + "; ".join(bad[:3]), case)
 
 
+def summary_case(ctx, report, sm):
+    """the metric lines printed by the summary report equal the definitions (two decimals)"""
+    import io
+    import re
+
+    setmap = {}
+    for k, c in sm:
+        setmap[frozenset(k)] = setmap.get(frozenset(k), 0) + c
+    if sum(setmap.values()) == 0:
+        return
+    want = oracle(sm, [])
+    case = {"setmap": [[list(k), c] for k, c in sm], "origin": "summary-report", "report": "summary"}
+    buf = io.StringIO()
+    try:
+        report.summary(setmap, buf)
+    except Exception as e:  # noqa
+        ctx.violation(f"summary report raises {type(e).__name__}: {e}", case)
+        return
+    ctx.count(key="summary-report" + ("" if any(not k for k in setmap) else ":no-unused-row"))
+    text = buf.getvalue()
+    bad = []
+    for label, key in (("Code Divergence", "divergence"), ("Coverage (%)", "coverage"), ("Avg. Coverage (%)", "avg")):
+        m = re.search(r"^" + re.escape(label) + r": (\S+)$", text, re.M)
+        if not m:
+            ctx.corr_break("summary-report layout", case, text[-300:], label)
+            return
+        w = want[key]
+        if w is None:
+            if m.group(1) != "nan":
+                bad.append(f"{label}: printed {m.group(1)}, the definition is undefined (NaN)")
+        else:
+            try:
+                ok = abs(Fraction(m.group(1)) - w) <= Fraction(5, 1000) + Fraction(TOL)
+            except ValueError:
+                ok = False
+            if not ok:
+                bad.append(f"{label}: printed {m.group(1)}, the definition gives {w} = {float(w):.4f}")
+    m = re.search(r"^Total SLOC: (\d+)$", text, re.M)
+    if not m or int(m.group(1)) != sum(setmap.values()):
+        bad.append(f"Total SLOC: printed {m.group(1) if m else None}, the table holds {sum(setmap.values())} lines")
+    if bad:
+        ctx.violation("summary report: " + "; ".join(bad[:3]), case)
+
+
 def tables_exhaustive(nplat, counts):
     names = NAMES[:nplat]
     subsets = [tuple(s) for r in range(nplat + 1) for s in itertools.combinations(names, r)]
@@ -359,11 +403,15 @@ def run(ctx, drv):
             metamorphic(ctx, report, sm, ctx.rng)
         if i % 4 == 1:
             history(ctx, report, sm, ctx.rng)
+        if i % 3 == 2:
+            summary_case(ctx, report, sm if ctx.rng.random() < 0.5 else [(k, c) for k, c in sm if k])
     # the clustering report's printed distance matrix (2-7 platforms, distinct pair distances)
     with core.Scratch() as scratch:
         for i in range(ctx.n(40, 400)):
             # plain letters, or names whose natural and lexicographic orders differ (p2 / p10): labels and cells must agree
-            pool = NAMES if ctx.rng.random() < 0.5 else ["p0", "p1", "p10", "p11", "p2", "p9", "node2", "node10"]
+            # … or hyphenated names whose concatenations collide ("cpu" + "omp-gpu" vs "cpu-omp" + "gpu")
+            pool = ctx.rng.choice([NAMES, NAMES, ["p0", "p1", "p10", "p11", "p2", "p9", "node2", "node10"],
+                                   ["cpu", "cpu-omp", "gpu", "omp-gpu", "omp", "cpu-omp-gpu", "a", "a-a"]])
             names = sorted(ctx.rng.sample(pool, ctx.rng.choice([2, 3, 4, 4, 5, 5, 6, 7])))
             sm = [([p], ctx.rng.randint(1, 9)) for p in names]
             for _ in range(ctx.rng.randint(2, 10)):
@@ -380,6 +428,10 @@ def replay(ctx, drv, case):
     from codebasin import report
 
     sm = [(k, n) for k, n in case["setmap"]]
+    if case.get("report") == "summary":
+        c2 = core.Ctx(ctx.prop, "quick", 0)
+        summary_case(c2, report, sm)
+        return {"violations": [w for w, _ in c2.violations], "definition": {k: str(v) for k, v in oracle(sm, []).items() if k != "matrix"}}
     if case.get("report") == "clustering":
         c2 = core.Ctx(ctx.prop, "quick", 0)
         with core.Scratch() as scratch:
